@@ -532,6 +532,91 @@ def run_doc_case(case, res):
                 scenario(copy.deepcopy(doc), i2, use_base, None, res, {"kind": "one", "doc": doc, "inc": i2, "base": use_base, "mode": None, "desc": "in include: " + desc}, "in include: " + desc)
 
 
+def run_getdef_handlers(res):
+    """the Template-level handlers also guard a single def rendered through get_def(name).render*():  an exception
+    raised in it reaches error_handler (True = handled, what was written directly stays), becomes an error page under
+    format_exceptions, and otherwise propagates as the same object"""
+    import io as _io
+
+    rt = _st["runtime"]
+
+    class GBoom(Exception):
+        pass
+
+    shapes = {
+        "plain": '<%def name="outer()">A${boom()}B</%def>',
+        "nested-buffered": '<%def name="outer()">A<%def name="inner()" buffered="True">x${boom()}y</%def>[${inner()}]B</%def>',
+        "call-body": '<%def name="w()">(${caller.body()})</%def><%def name="outer()">A<%call expr="w()">c${boom()}d</%call>B</%def>',
+        "filtered": '<%def name="outer()" filter="trim">A${boom()}B</%def>',
+        "inheriting": '<%inherit file="base_gd.html"/><%def name="outer()">A${boom()}B</%def>',
+    }
+    written = {"plain": "A", "nested-buffered": "A[", "call-body": "A(c", "filtered": "", "inheriting": "A"}
+    for sname, text in shapes.items():
+        for route in ("render_unicode", "render", "render_context"):
+            err = GBoom("gd-%s" % sname)
+
+            def boom():
+                raise err
+
+            seen = []
+
+            def handler(context, error):
+                seen.append(error)
+                context.write("<H>")
+                return True
+
+            def build(**kw):
+                lk = _st["TemplateLookup"](**kw)
+                lk.put_string("base_gd.html", "BASE(${next.body()})")
+                lk.put_string("t_gd.html", text)
+                return lk.get_template("t_gd.html")
+
+            def run(t):
+                d = t.get_def("outer")
+                if route == "render_unicode":
+                    return d.render_unicode(boom=boom)
+                if route == "render":
+                    return d.render(boom=boom)
+                buf = _io.StringIO()
+                d.render_context(rt.Context(buf, boom=boom))
+                return buf.getvalue()
+
+            what = "get_def('outer').%s() of %r" % (route, text)
+            res.evaluations += 1
+            res.count("get_def_handler_routes")
+            # (a) no handler: the same object propagates
+            try:
+                out = run(build())
+                res.violate("exception-swallowed", "%s without handlers returned %r" % (what, out))
+            except GBoom as e:
+                if e is not err:
+                    res.violate("exception-not-original", "%s propagated %r" % (what, e))
+            except Exception as e:
+                res.violate("exception-not-original", "%s raised %s: %s" % (what, type(e).__name__, e))
+            # (b) error_handler returning True
+            try:
+                out = run(build(error_handler=handler))
+                if seen != [err]:
+                    res.violate("error-handler-argument", "%s: error_handler saw %r" % (what, seen))
+                if out != written[sname] + "<H>":
+                    res.violate("error-handler-output", "%s with error_handler returning True gave %r, expected %r" % (what, out, written[sname] + "<H>"))
+            except Exception as e:
+                res.violate("error-handler-ignored", "%s: error_handler returned True but the render raised %s: %s" % (what, type(e).__name__, e))
+            # (c) format_exceptions (through render_context the page replaces the Context's own buffers, not the caller's)
+            if route == "render_context":
+                res.nontrivial("getdef-handlers", sname, route)
+                continue
+            try:
+                out = run(build(format_exceptions=True))
+                if isinstance(out, bytes):
+                    out = out.decode("utf-8", "replace")
+                if "GBoom" not in out or "Mako Runtime Error" not in out:
+                    res.violate("error-page-missing", "%s with format_exceptions gave %r" % (what, out[:200]))
+            except Exception as e:
+                res.violate("error-page-missing", "%s: format_exceptions=True but the render raised %s: %s" % (what, type(e).__name__, e))
+            res.nontrivial("getdef-handlers", sname, route)
+
+
 def run_supports_caller(res):
     """a plain-Python namespace function decorated with runtime.supports_caller is a callee like any def: when an
     exception passes through it and is handled, `caller` of the code around it is what it was before"""
@@ -591,6 +676,7 @@ def run_supports_caller(res):
 
 def gen_cases(tier, seed):
     yield {"kind": "supports_caller"}
+    yield {"kind": "getdef_handlers"}
     n = 36 if tier == "quick" else 1500
     per = 2
     for i in range(n // per):
@@ -599,6 +685,9 @@ def gen_cases(tier, seed):
 
 def run_case(case):
     res = common.CaseResult()
+    if case["kind"] == "getdef_handlers":
+        run_getdef_handlers(res)
+        return res
     if case["kind"] == "supports_caller":
         run_supports_caller(res)
     elif case["kind"] == "docs":
